@@ -251,7 +251,7 @@ func otherAsset(a string) string {
 }
 
 var defectKinds = []string{
-	"fuzzed-variable-text", "fuzzed-variable-text",
+	"fuzzed-variable-text", "fuzzed-variable-text", "nested-slot", "nested-slot", "nested-slot",
 	"omit-variable", "illformed-variable", "undeclared-type", "unbound-variable", "unknown-function-statement",
 	"unknown-function-origin", "bad-arity", "wrong-type-expression", "negative-amount", "mismatched-asset",
 	"bad-allotment-sum", "zero-denominator-portion", "insufficient-funds", "missing-metadata", "negative-balance",
@@ -262,6 +262,38 @@ func applyDefect(r *rand.Rand, c *gen.PI, first bool) (Defect, bool) {
 	kind := defectKinds[r.IntN(len(defectKinds))]
 	d := Defect{Name: kind, Certain: true}
 	switch kind {
+	case "nested-slot":
+		// A statement built from a template in which a nested position is certainly reached with
+		// a positive amount (10 is sent from @world; caps and portions leave > 0 for the slot),
+		// with the defect sitting in that position: rarely used constructs must report errors too.
+		bad, allowed := nestedBad(r, c)
+		acc := func(n string) *gen.Dst { return &gen.Dst{K: "acc", E: gen.Acc(n)} }
+		usd := func(n string) *gen.Expr { return gen.Mon(gen.Asset("USD"), gen.Num(n)) }
+		st := gen.Stmt{K: "send", Amt: usd("10"), Src: &gen.Src{K: "acc", E: gen.Acc("world")}, Dst: acc("b")}
+		badDst := &gen.Dst{K: "acc", E: bad}
+		switch r.IntN(8) {
+		case 0: // remaining of an in-order destination
+			st.Dst = &gen.Dst{K: "seq", Clauses: []gen.DstClause{{Cap: *usd("3"), To: gen.KoD{D: acc("a")}}}, Rem: &gen.KoD{D: badDst}}
+		case 1: // second clause of an in-order destination (7 left when it is reached)
+			st.Dst = &gen.Dst{K: "seq", Clauses: []gen.DstClause{{Cap: *usd("3"), To: gen.KoD{Kept: true}}, {Cap: *usd("4"), To: gen.KoD{D: badDst}}}, Rem: &gen.KoD{Kept: true}}
+		case 2: // item of a destination allotment nested in an in-order remaining
+			inner := &gen.Dst{K: "allot", Items: []gen.DstItem{{A: gen.Allot{K: "lit", S: "1/2"}, To: gen.KoD{D: acc("a")}}, {A: gen.Allot{K: "rem"}, To: gen.KoD{D: badDst}}}}
+			st.Dst = &gen.Dst{K: "seq", Rem: &gen.KoD{D: inner}}
+		case 3: // second source of an in-order source behind a cap that leaves 6 to find
+			st.Src = &gen.Src{K: "seq", Subs: []gen.Src{{K: "cap", E: usd("4"), Subs: []gen.Src{{K: "acc", E: gen.Acc("world")}}}, {K: "acc", E: bad}, {K: "acc", E: gen.Acc("world")}}}
+		case 4: // source of an allotment item nested in a capped source
+			inner := gen.Src{K: "allot", Items: []gen.SrcItem{{A: gen.Allot{K: "lit", S: "1/4"}, From: gen.Src{K: "acc", E: gen.Acc("world")}}, {A: gen.Allot{K: "rem"}, From: gen.Src{K: "unb", E: bad}}}}
+			st.Src = &gen.Src{K: "seq", Subs: []gen.Src{{K: "cap", E: usd("8"), Subs: []gen.Src{inner}}, {K: "acc", E: gen.Acc("world")}}}
+		case 5: // bounded overdraft account inside a send-all cap
+			st.All, st.Amt = true, gen.Asset("USD")
+			st.Src = &gen.Src{K: "cap", E: usd("5"), Subs: []gen.Src{{K: "bnd", E: bad, B: usd("5")}}}
+		case 6: // account argument of set_account_meta / value position of set_tx_meta
+			st = gen.Stmt{K: "call", Fn: "set_account_meta", Args: []gen.Expr{*bad, *gen.Str("k"), *gen.Num("1")}}
+		default: // save account
+			st = gen.Stmt{K: "save", Amt: usd("1"), Acc: bad}
+		}
+		insertStmt(r, c, st)
+		d.Allowed = allowed
 	case "fuzzed-variable-text":
 		// text drawn around the accepted grammar: it may well be valid (then nothing must
 		// fail), so the label only says which causes a failure may name
@@ -529,4 +561,26 @@ func applyDefect(r *rand.Rand, c *gen.PI, first bool) (Defect, bool) {
 		d.Allowed = []string{"invalid-send-all-source"}
 	}
 	return d, true
+}
+
+// nestedBad returns an account-position expression that cannot be an account,
+// and the causes the failure may name.
+func nestedBad(r *rand.Rand, c *gen.PI) (*gen.Expr, []string) {
+	switch r.IntN(4) {
+	case 0:
+		return gen.Var("nope_nested"), []string{"unknown-name"}
+	case 1:
+		return core.Pick(r, []*gen.Expr{gen.Num("42"), gen.Str("x"), gen.Asset("USD"), gen.Por("10%"), gen.Mon(gen.Asset("USD"), gen.Num("1"))}), []string{"wrong-type"}
+	case 2:
+		t := core.Pick(r, []string{"monetary", "number", "portion", "string", "asset"})
+		name := "zz_nw_" + t
+		c.Prog.Vars = append(c.Prog.Vars, gen.VarDecl{Type: t, Name: name})
+		c.In.Vars[name] = map[string]string{"asset": "USD", "number": "7", "monetary": "USD 7", "portion": "1/2", "string": "s"}[t]
+		return gen.Var(name), []string{"wrong-type"}
+	default:
+		// an account variable that was never given a value
+		c.Prog.Vars = append(c.Prog.Vars, gen.VarDecl{Type: "account", Name: "zz_nm"})
+		delete(c.In.Vars, "zz_nm")
+		return gen.Var("zz_nm"), []string{"missing-variable"}
+	}
 }
